@@ -301,6 +301,22 @@ def c02(ctx):
             if (cl == "L 0") != (sl == "sL 1"):
                 ctx.S("mode %d local part decided against the grammar word *(\".\" word)" % m, op="L %d %s %s" % (m, hx(s), hx(gen.AT)),
                       input=repr(s), impl=cl, spec=sl)
+    # the same local parts through the high-level API, one eav_t switched through the three modes (both orders)
+    sample = [s for s in strs if 0 < len(s) <= 64 and 0 not in s and b"@" not in s][:: (150 if ctx.tier == "quick" else 15)]
+    direct = {}
+    for m in (822, 5321, 5322):
+        cl = ctx.K("local%d-direct" % m, "default", ["L %d %s %s" % (m, hx(s), hx(gen.AT)) for s in sample], project=lambda op, ln: accept_bit(ln))
+        direct[m] = dict(zip(sample, cl))
+    for order in ((822, 5321, 5322), (5322, 5321, 822), (5321, 822, 5322)):
+        scripts = ["i;t0;" + ";".join("r%d;s;e%s" % (m, hx(s + b"@b.com")) for m in order) + ";f" for s in sample]
+        hl = ctx.K("local-api", "default", ["H " + sc for sc in scripts], nontrivial=lambda op, ln: True)
+        for s, sc, ln in zip(sample, scripts, hl):
+            parts = ln[2:].split(";")
+            for k, m in enumerate(order):
+                e = parts[2 + 3 * k + 2]
+                acc_api = e.startswith("e1")
+                if acc_api != (direct[m][s] == "L 0"):
+                    ctx.S("through eav_is_email, mode %d judges a local part differently than is_%d_local does" % (m, m), op="H " + sc, input=repr(s), api=e, direct=direct[m][s])
     # the byte at *end may be read by the 822 folding test: the decision must not depend on it
     fold = [s for s in strs if b"\r\n" in s][:3000]
     for endb in (b" \0", b"\t\0", b"\0"):
@@ -962,6 +978,8 @@ def c17(ctx):
     locs = list(dict.fromkeys(locs))
     doms = [d for d in dict.fromkeys(gen.domain_strings("quick", ctx.rng)[:: (6 if ctx.tier == "quick" else 1)]) if 0 not in d]
     mails = [e for e in dict.fromkeys(gen.email_strings("quick", ctx.rng)[:: (5 if ctx.tier == "quick" else 1)]) if 0 not in e]
+    for t in (b"com", b"museum", b"xn--p1ai", b"test", b"example.com", b"zz"):
+        mails += [b"a@mail.shop_" + t, b"a@intranet_" + t, b"a@a_b." + t, b"a@_." + t, b"a@x._" + t, b"a@x." + t + b"_", b"a@x_y.z_w." + t, b"a@my_example.com", b"a@x.my_" + t]
     res = {}
     for v in variants:
         r = {}
